@@ -27,7 +27,7 @@ from easynetwork.servers.async_tcp import AsyncTCPNetworkServer
 from easynetwork.servers.async_udp import AsyncUDPNetworkServer
 from easynetwork.servers.handlers import AsyncDatagramRequestHandler, AsyncStreamRequestHandler
 
-from vlib import netutil, vloop, yieldinject
+from vlib import preempt, netutil, vloop, yieldinject
 
 PROPERTY = "C18"
 LEVEL = "exploration"
@@ -344,6 +344,10 @@ def check_history(events: list, ctx=None, threads: bool = False) -> str | None:
             continue
         if r["result"] != "returned":
             return f"server_close raised {r['result']}"
+        if threads and any(u["i"] > r["i"] and c < r["i"] for c, u in ups.items()):
+            # the up signal is given on the event-loop thread, which also runs the close coroutine: an "up" recorded after the
+            # close returned means the close ran before it, inside the start-up window, and closed nothing
+            return "standalone server still serving after server_close() returned: a serve_forever() that was starting when server_close() was called came up after server_close() had returned"
         if r.get("listening"):
             return f"is_listening() is True right after server_close (event {x}) returned"
         if any(f != -1 for f in r.get("socks", [])):
@@ -397,11 +401,19 @@ def run_thread_history(h: dict, seed: int) -> dict:
     else:
         server = StandaloneTCPNetworkServer(netutil.rand_loopback(), 0, StreamProtocol(StringLineSerializer()), EchoStream(0, 0), logger=_quiet())
     serve_threads: list = []
+    pp = h.get("preempt")
+    serve_settled: dict[int, threading.Event] = {}
+    gate = threading.Event()  # directed mode: the other tasks start when the pause point is reached
+    others_done = threading.Event()
+    others_left = [h["ntasks"] - 1]
 
     def op_serve(cid: int):
+        settled = serve_settled.setdefault(cid, threading.Event())
+
         class Up:
             def set(self_inner):
                 ev("up", call=cid)
+                settled.set()
 
         try:
             server.serve_forever(is_up_event=Up())
@@ -412,6 +424,8 @@ def run_thread_history(h: dict, seed: int) -> dict:
             ev("return", call=cid, result="ServerClosedError")
         except BaseException as exc:  # noqa: BLE001
             ev("return", call=cid, result=f"raised:{type(exc).__name__}: {exc}")
+        finally:
+            settled.set()
 
     def echo_once() -> str:
         try:
@@ -435,10 +449,28 @@ def run_thread_history(h: dict, seed: int) -> dict:
             s.close()
 
     def driver(tid: int):
-        for o in [x for x in h["ops"] if x["task"] == tid]:
+        try:
+            _driver(tid)
+        finally:
+            if pp:
+                if tid == 0:
+                    gate.set()  # the pause point was not on the path: the other calls simply come afterwards
+                else:
+                    with lock:
+                        others_left[0] -= 1
+                        if others_left[0] <= 0:
+                            others_done.set()
+
+    def _driver(tid: int):
+        if pp and tid != 0:
+            gate.wait(60)
+        mine = [x for x in h["ops"] if x["task"] == tid]
+        for idx, o in enumerate(mine):
             if o["delay"]:
                 time.sleep(o["delay"] / 10)
             op = o["op"]
+            if pp and tid == 0 and idx == pp["arm_at"]:
+                inj.armed = True
             cid = ev("call", op=op, task=tid)
             try:
                 if op == "serve":
@@ -448,7 +480,12 @@ def run_thread_history(h: dict, seed: int) -> dict:
                     else:
                         t = threading.Thread(target=op_serve, args=(cid,), daemon=True)
                     serve_threads.append(t)
+                    serve_settled[cid] = threading.Event()
                     t.start()
+                    if pp:
+                        # directed mode: a serve call counts as performed once it is up or has ended (bounded wait: it may
+                        # legitimately be blocked behind the paused thread)
+                        serve_settled[cid].wait(5.0 if (tid == 0 and idx < pp["arm_at"]) else 0.4)
                 elif op == "shutdown":
                     server.shutdown()
                     ev("return", call=cid, result="returned", serving=server.is_serving())
@@ -464,12 +501,22 @@ def run_thread_history(h: dict, seed: int) -> dict:
             except BaseException as exc:  # noqa: BLE001
                 ev("return", call=cid, result=f"raised:{type(exc).__name__}: {exc}")
 
-    inj = yieldinject.YieldInjector(seed, p_yield=0.03, p_sleep=0.005)
+    def at_pause() -> None:
+        ev("paused", point=[pp["code"], pp["line"]], thread=threading.current_thread().name)
+        gate.set()
+        ok = others_done.wait(0.4)
+        ev("resumed", others_done=ok)
+
+    inj: Any
+    if pp:
+        inj = preempt.PausePoint(_lifecycle_funcs(), pp["code"], pp["line"], at_pause)
+    else:
+        inj = yieldinject.YieldInjector(seed, p_yield=0.03, p_sleep=0.005)
     with inj:
         ths = [threading.Thread(target=driver, args=(t,), daemon=True) for t in range(h["ntasks"])]
         for t in ths:
             t.start()
-        deadline = time.monotonic() + 150
+        deadline = time.monotonic() + (40 if pp else 150)
         for t in ths:
             t.join(max(0.1, deadline - time.monotonic()))
         stuck = [t for t in ths if t.is_alive()]
@@ -533,7 +580,7 @@ def run_thread_history(h: dict, seed: int) -> dict:
 
             et = threading.Thread(target=epilogue, daemon=True)
             et.start()
-            et.join(150)
+            et.join(40 if pp else 150)
             if et.is_alive():
                 stuck = [et]
             for t in serve_threads:
@@ -542,9 +589,49 @@ def run_thread_history(h: dict, seed: int) -> dict:
                     stuck.append(t)
         if stuck:
             res["stuck"] = _sample_stacks(stuck + serve_threads)
-    res["switches"] = inj.switches
-    res["ihash"] = inj.hash
+    if pp:
+        res["paused"] = inj.fired
+    else:
+        res["switches"] = inj.switches
+        res["ihash"] = inj.hash
     return res
+
+
+def _lifecycle_funcs() -> list:
+    from easynetwork.servers._base import BaseStandaloneNetworkServerImpl as B
+
+    from easynetwork.servers._base import BaseAsyncNetworkServerImpl as A
+
+    return [B.shutdown, B.server_close, B._run_sync_or_else, B.serve_forever, B.is_serving, A.serve_forever, A.server_activate, A.server_close, A.shutdown]
+
+
+def directed_histories() -> list[dict]:
+    """every (initial state, call X, pause point on X's path, concurrent call Y)"""
+    from easynetwork.servers._base import BaseAsyncNetworkServerImpl as A
+    from easynetwork.servers._base import BaseStandaloneNetworkServerImpl as B
+
+    # the asynchronous server's functions run on the event-loop thread: pausing it there queues the concurrent call's
+    # coroutine, which then runs at the paused coroutine's next suspension point
+    per_x = {
+        "shutdown": [B.shutdown, B.serve_forever, A.shutdown, A.serve_forever],  # a shutdown drives the serving thread through the tear-down
+        "close": [B.server_close, B._run_sync_or_else, A.server_close],
+        "serve": [B.serve_forever, A.serve_forever, A.server_activate],
+    }
+    out = []
+    for state in ("idle", "serving"):
+        for x, funcs in per_x.items():
+            for code, line in preempt.points(funcs):
+                if state == "idle" and x == "shutdown" and code not in ("shutdown", "do_shutdown_with_timeout"):
+                    continue
+                for y in ("serve", "shutdown", "close", "probe"):
+                    ops = []
+                    if state == "serving":
+                        ops.append({"task": 0, "op": "serve", "delay": 0})
+                    ops.append({"task": 0, "op": x, "delay": 0})
+                    ops.append({"task": 1, "op": y, "delay": 0})
+                    out.append({"udp": False, "ops": ops, "listen_delay": 0, "init_delay": 0, "disc_delay": 0, "ntasks": 2, "use_server_thread": False,
+                                "preempt": {"code": code, "line": line, "arm_at": len(ops) - 2}, "state": state, "x": x, "y": y})
+    return out
 
 
 def _sample_stacks(threads: list) -> dict:
@@ -554,21 +641,22 @@ def _sample_stacks(threads: list) -> dict:
         for t in threads:
             if t.is_alive() and t.ident in frames:
                 st = traceback.extract_stack(frames[t.ident])
-                out[t.ident] = [(f.filename.split("/")[-1], f.lineno, f.name) for f in st[-8:]]
+                out[t.ident] = [("easynetwork/" * ("easynetwork" in f.filename) + f.filename.split("/")[-1], f.lineno, f.name) for f in st[-8:]]
         return out
 
     a = snap()
     time.sleep(3)
     b = snap()
     same = a == b and bool(a)
-    in_lib = all(any("easynetwork" in fr[0] or fr[2] in ("acquire", "wait", "result") for fr in st) for st in a.values()) if a else False
+    # every surviving thread is parked (lock / event / future wait, or an event loop idling in its selector) under an easynetwork frame
+    in_lib = all(any("easynetwork" in fr[0] for fr in st) and st[-1][2] in ("acquire", "wait", "result", "select", "__enter__") for st in a.values()) if a else False
     return {"deadlock": bool(same and in_lib), "stacks": {str(k): v for k, v in a.items()}}
 
 
 def plan(tier: str, seed: int) -> list[dict]:
     n_async = 120 if tier == "quick" else 4000
     n_thr = 3 if tier == "quick" else 40
-    return [{"seed": seed * 1000 + k, "n_async": n_async, "n_threads": n_thr} for k in range(16)]
+    return [{"seed": seed * 1000 + k, "n_async": n_async, "n_threads": n_thr, "tier": tier} for k in range(16)]
 
 
 def run_shard(params: dict, ctx) -> None:
@@ -604,6 +692,29 @@ def run_shard(params: dict, ctx) -> None:
         if why:
             key = "close-ignored-during-startup:standalone" if "still serving after server_close" in why else f"history:standalone-{'udp' if h['udp'] else 'tcp'}"
             ctx.violation(key, why, {"history": h, "events": res["events"][-16:], "threads": True})
+    # directed preemption: one pause per run, at every line of the standalone lifecycle functions
+    D = directed_histories()
+    mine = list(range(params["seed"] % 16, len(D), 16))
+    if params.get("tier") == "quick":
+        mine = mine[(params["seed"] // 1000) % 4 :: 4]
+    for j in mine:
+        h = D[j]
+        ctx.count("kind:directed-preemption")
+        res = run_thread_history(h, 0)
+        label = f"{h['state']}:{h['x']}@{h['preempt']['code']}:{h['preempt']['line']} vs {h['y']}"
+        ctx.case(bool(res.get("paused")), "directed", label)
+        if res.get("paused"):
+            ctx.count("pause_points_reached")
+            if any(e["k"] == "resumed" and not e["others_done"] for e in res["events"]):
+                ctx.count("concurrent_call_blocked_behind_paused_thread")
+        if res.get("stuck"):
+            evs = [(e["k"], e.get("op"), e.get("result"), e.get("task")) for e in res["events"]]
+            ctx.violation(f"never-returned:standalone:{h['x']}-vs-{h['y']}", f"[directed {label}] a lifecycle call never returned (40 s): stacks {res['stuck']['stacks']}; events {evs}", {"history": h, "threads": True, "directed": True})
+            continue
+        why = check_history(res["events"], ctx, threads=True)
+        if why:
+            key = "close-ignored-during-startup:standalone" if "still serving after server_close" in why else f"history:standalone-directed:{h['x']}-vs-{h['y']}"
+            ctx.violation(key, f"[directed {label}] {why}", {"history": h, "events": res["events"][-16:], "threads": True, "directed": True})
     # NetworkServerThread start/join cycle
     _server_thread_cycle(ctx, rng)
 
@@ -639,6 +750,12 @@ def _server_thread_cycle(ctx, rng) -> None:
 
 
 def replay(witness: dict, ctx) -> None:
+    if witness.get("directed"):
+        res = run_thread_history(witness["history"], 0)
+        why = "a lifecycle call never returned" if res.get("stuck") else check_history(res["events"], None, threads=True)
+        if why:
+            ctx.violation("replayed", why, witness)
+        return
     if witness.get("threads") or witness.get("history") is None:
         return
     res = run_async_history(witness["history"])
